@@ -343,8 +343,67 @@ class G:
             return self.vm_boolish(e[1])
         return self.ty(e) != "i"
 
+    def gen_nest(self, k):
+        """k nested loops whose innermost body uses every loop variable (variable frames of all depths)"""
+        r = self.r
+        dep = len(self.loops)
+        if k == 0:
+            ivars = [j for j, t in enumerate(self.loops) if t == "i"]
+            svars = [j for j, t in enumerate(self.loops) if t == "s"]
+            terms = []
+            if ivars:
+                e = ("var", ivars[0])
+                for j in ivars[1:]:
+                    e = ("ar", r.choice(["add", "add", "sub", "mul", "bxor"]), e, ("var", j), "i")
+                sr = self.sref()
+                v = r.random()
+                if sr is not None and v < 0.3:
+                    terms.append(("foundat", sr, e))
+                elif sr is not None and v < 0.5:
+                    terms.append(("cmp", r.choice(CMPS), ("offset", sr, ("var", r.choice(ivars))), e, "i"))
+                else:
+                    terms.append(("cmp", r.choice(CMPS), e, self.lit(r.randint(0, 9)), "i"))
+                if len(ivars) > 1 and r.random() < 0.5:
+                    terms.append(("cmp", r.choice(CMPS), ("var", ivars[-1]), ("var", r.choice(ivars[:-1])), "i"))
+            for j in svars:
+                terms.append(("sop", r.choice(SOPS), r.choice([("str", b"abcab"), ("ext", self.c.new_ext("s", b"xabc"))]), ("var", j)))
+            if self.in_forof:
+                terms.append(r.choice([("found", "cur"), ("cmp", "ge", ("count", "cur"), self.lit(r.randint(0, 2)), "i")]))
+            if not terms:
+                terms.append(self.bool_leaf())
+            e = terms[0]
+            for t in terms[1:]:
+                e = (r.choice(["and", "or"]), e, t)
+            return e
+        v = r.random()
+        q = self.quant(0, 3)
+        if v < 0.45:
+            a = r.choice([0, 1, 1, 2])
+            lo, hi = self.lit(a), self.lit(a + r.choice([0, 1, 2, 3]))
+            self.loops.append("i")
+            body = self.as_body(self.gen_nest(k - 1))
+            self.loops.pop()
+            return ("forrange", q, lo, hi, body, dep, True)
+        if v < 0.85 or not self.rule.strs or self.in_forof:
+            ity = "s" if r.random() < 0.25 else "i"
+            n = r.choice([1, 2, 3])
+            items = [self.lit(r.randint(0, 4)) for _ in range(n)] if ity == "i" else [("str", r.choice(STRPOOL)) for _ in range(n)]
+            self.loops.append(ity)
+            body = self.as_body(self.gen_nest(k - 1))
+            self.loops.pop()
+            return ("forenum", q, items, body, ity, dep, True)
+        st = self.sset()
+        self.loops.append("of")
+        self.in_forof = True
+        body = self.as_body(self.gen_nest(k - 1))
+        self.in_forof = False
+        self.loops.pop()
+        return ("forof", q, st, body, True)
+
     def gen_bool(self, d):
         r = self.r
+        if d >= 2 and not self.loops and r.random() < 0.05:
+            return self.gen_nest(r.choice([2, 3, 3, 4, 4]))
         if d <= 0 or r.random() < 0.12:
             return self.bool_leaf()
         if self.loops and len(self.loops) < MAXLOOPS and r.random() < 0.22:
@@ -474,7 +533,7 @@ def gen_case(r, maxdepth=MAXDEPTH):
     """-> Case with rules whose conditions are expected to compile; retried internally"""
     for _ in range(200):
         c = Case(r)
-        nrules = r.choice([1, 1, 1, 2, 2, 3])
+        nrules = r.choice([1, 1, 1, 1, 2, 2, 2, 3, 3, 4])
         pats_all = []
         plan = []
         for k in range(nrules):
